@@ -29,7 +29,7 @@ CHECKS = {
          "Exploration: compile() must return a package or a report for every generated text; the report must render with and without colour and every cited location must lie inside its file on char boundaries; panics, aborts and stack overflows are observed through worker isolation.",
          "Inputs <= 16 KiB and bracket depth <= 64; hangs are reported as inconclusive by a watchdog; locations come from hook verif_locations.",
          "DESIGN.md §4 C06"),
- "C07": ("three families: one type-breaking edit (32 kinds) on a well-typed generated program; a generator-driven wrong-typed value at one typed site; a self-contained ill-typed snippet (43 families) planted in a well-typed program; each must be rejected with a type error",
+ "C07": ("three families: one type-breaking edit (32 kinds) on a well-typed generated program; a generator-driven wrong-typed value at one typed site; a self-contained ill-typed snippet (44 families) planted in a well-typed program; each must be rejected with a type error",
          "Exploration: for each generated well-typed program one edit that is ill-typed by construction is applied at a random applicable site; compile must return a report starting with `Error: Type error`.",
          "Single defects only; soundness of the catalogue argued per edit in DESIGN.md; programs are generated without shadowing so that the scope edits stay ill-typed.",
          "DESIGN.md §4 C07"),
